@@ -37,6 +37,16 @@ Agents are also built with accelerate.Accelerator(cpu=True, gradient_accumulatio
 the same accelerator is handed to Mutations and load), and two crafted histories per algorithm keep ONE matrix alive
 for 135 decisions (clone after 45, reload in the middle) so that periodic effects at 50 / 64 / 100 / 128 updates show.
 
+Degenerate but legal context matrices are a dimension of every decision (4th element of an `act` op, `make_context`;
+`gen_shape` for 30 % of the generated decisions, `degenerate_cases` crafted for both algorithms on dense and block
+contexts): an arm whose row is exactly all zeros (a padding arm) - half of the time the mask leaves only that arm, so
+that it is the chosen one -, all rows zero, two arms with the same row, unit-vector rows, all entries times 2**e
+(e in -24..8; `box` declares the matching observation space), combinations of these, and agents with a single arm
+(Discrete(1)).  The reference feature of the chosen arm is torch.autograd.grad of the actor's output w.r.t. the live
+output layer's parameters, computed by the harness BEFORE get_action runs: it never reads the agent's own `g` nor any
+.grad field, so a feature that get_action gets wrong (e.g. 0 for a zero row, where the truth is (h(0), 1) * act'(z))
+shows as sigma_inv != inverse of the Gram matrix.
+
 Lambda semantics (DESIGN D16): Z0 = lamb*I is the property text ("paper"); `sigma_inv0 = lamb*I`
 ("code") is probed on exactly lamb != 1 through chk.finding("C19-lambda-not-inverted").  A stale
 `exp_layer` after load is probed through chk.finding("C19-exp-layer-stale-after-load").
@@ -122,22 +132,42 @@ def build(case, seed, accelerator=None):
     from gymnasium import spaces
     cls = agents.algo_class(case["algo"])
     agents.seed_all(seed)
-    return cls(spaces.Box(-1.0, 1.0, (obs_dim(case),), np.float32), spaces.Discrete(case["arms"]),
+    hi = float(case.get("box", 1.0))         # contexts scaled by 2**e declare the matching observation space
+    return cls(spaces.Box(-hi, hi, (obs_dim(case),), np.float32), spaces.Discrete(case["arms"]),
                net_config=net_config(case), hp_config=hp_config(case),
                gamma=case["gamma"], lamb=case["lamb"], batch_size=4, learn_step=1, device="cpu",
                accelerator=accelerator)
 
 
-def make_context(case, seed) -> np.ndarray:
+def make_context(case, seed, shape=None) -> np.ndarray:
+    """the context matrix of one decision (one row per arm).  `shape` (4th element of an `act` op) makes it a
+    degenerate but legal one, applied in this order:
+      onehot: every row is a unit vector (block contexts: the shared feature vector is one)
+      scale e: all entries times 2**e (tiny / huge magnitudes; the case's `box` declares the space)
+      dup [i, j]: arm j's row is a copy of arm i's
+      zero [k, ...]: these arms' rows are exactly all zeros (padding arms)"""
     rng = np.random.default_rng([seed & 0xFFFFFFFF, 19])
     k, d = case["arms"], case["ctx_dim"]
+    shape = shape or {}
     if case["ctx_kind"] == "block":          # agilerl.wrappers.learning.BanditEnv: one feature vector,
         x = rng.uniform(-1, 1, size=d)       # copied into block i of arm i's context
+        if shape.get("onehot"):
+            x = np.eye(d)[int(rng.integers(d))]
         ctx = np.zeros((k, k * d))
         for i in range(k):
             ctx[i, i * d:(i + 1) * d] = x
-        return ctx.astype(np.float32)
-    return rng.uniform(-1, 1, size=(k, d)).astype(np.float32)
+    else:
+        ctx = rng.uniform(-1, 1, size=(k, d))
+        if shape.get("onehot"):
+            ctx = np.eye(d)[rng.integers(d, size=k)]
+    if shape.get("scale") is not None:
+        ctx = ctx * 2.0 ** int(shape["scale"])
+    if shape.get("dup"):
+        i, j = (int(a) % k for a in shape["dup"])
+        ctx[j] = ctx[i]
+    for a in shape.get("zero", []):
+        ctx[int(a) % k] = 0.0
+    return ctx.astype(np.float32)
 
 
 class DenseEnv:
@@ -377,7 +407,8 @@ def run_impl(case, fault=None) -> Trace:
             slot = live[cur]
             agent = slot["agent"]
             if op[0] == "act":
-                ctx = make_context(case, op[1])
+                shape = op[3] if len(op) > 3 else None
+                ctx = make_context(case, op[1], shape)
                 mask = None if op[2] is None else np.array(op[2])
                 mu, g = features(agent, ctx)
                 S_before = agent.sigma_inv.detach().double().numpy().copy()
@@ -417,6 +448,16 @@ def run_impl(case, fault=None) -> Trace:
                 if slot["Z"] is not None and slot["Z"].shape[0] == g64.shape[1]:
                     slot["Z"] = slot["Z"] + np.outer(g64[a], g64[a])
                 tr.tags.append("act-masked" if mask is not None else "act")
+                if shape:
+                    tr.tags += [f"ctx-{n}" for n in sorted(shape)]
+                    if shape.get("scale") is not None:
+                        tr.tags.append("ctx-scale-tiny" if int(shape["scale"]) < 0 else "ctx-scale-huge")
+                    if a in [int(z) % case["arms"] for z in shape.get("zero", [])]:
+                        tr.tags.append("ctx-zero-row-chosen")      # the padding arm's decision must be absorbed too
+                    if shape.get("dup") and a in [int(z) % case["arms"] for z in shape["dup"]]:
+                        tr.tags.append("ctx-dup-row-chosen")
+                if case["arms"] == 1:
+                    tr.tags.append("single-arm")
                 if len(live) > 1:
                     tr.tags.append("act-beside-clone")
                 after(where)
@@ -611,7 +652,40 @@ def one_case(chk: Check, case, fault=None):
 
 
 # ----------------------------------------------------------------------------- generation
-def gen_case(rng: random.Random, tier: str, grow: bool = False):
+SCALES_TINY = [-24, -12, -6]
+SCALES_HUGE = [3, 6, 8]
+
+
+def gen_shape(rng: random.Random, case, p: float = 0.3):
+    """(shape, mask): a degenerate but legal context matrix for one decision - rows that are exactly zero
+    (half of the time the decision is forced onto such an arm by the mask), two arms with the same row,
+    unit-vector rows, tiny / huge magnitudes, and combinations; (None, None) with probability 1 - p"""
+    if rng.random() >= p:
+        return None, None
+    k = case["arms"]
+    shape, mask = {}, None
+    kinds = rng.choice([["zero"], ["zero"], ["dup"], ["onehot"], ["scale"], ["zero", "onehot"], ["zero", "scale"],
+                        ["dup", "zero"], ["dup", "scale"], ["onehot", "scale"]])
+    if "onehot" in kinds:
+        shape["onehot"] = 1
+    if "scale" in kinds:
+        shape["scale"] = rng.choice(SCALES_TINY + (SCALES_HUGE if case.get("box", 1.0) > 1 else []))
+    if "dup" in kinds:
+        i = rng.randrange(k)
+        shape["dup"] = [i, (i + 1 + rng.randrange(max(1, k - 1))) % k]
+    if "zero" in kinds:
+        zs = sorted(rng.sample(range(k), 1 if rng.random() < 0.7 else rng.randint(1, k)))
+        shape["zero"] = zs
+        if rng.random() < 0.5:
+            z = rng.choice(zs)
+            mask = [1 if j == z else 0 for j in range(k)]
+    elif "dup" in kinds and rng.random() < 0.4:
+        z = rng.choice(shape["dup"])
+        mask = [1 if j == z else 0 for j in range(k)]
+    return shape, mask
+
+
+def gen_case(rng: random.Random, tier: str, grow: bool = False, degenerate: float = 0.3):
     algo = rng.choice(["NeuralUCB", "NeuralTS"])
     lamb = rng.choice([1.0, 1.0, 0.5, 2.0, 0.25, 4.0, 1.5, 0.1, 3.7])
     case = {
@@ -633,6 +707,16 @@ def gen_case(rng: random.Random, tier: str, grow: bool = False):
         case["accel"] = rng.choice([1, 2, 4])          # agent built with an accelerate.Accelerator
     if grow:
         case["head"], case["max_nodes"] = [8], 24
+    if rng.random() < 0.12:
+        case["arms"] = 1                               # a single arm: nothing to choose, every decision counts
+    if rng.random() < 0.4:
+        case["box"] = 256.0                            # wide observation space: contexts of huge magnitude are legal
+
+    def act(seed_mask=None):
+        """one decision; with probability `degenerate` on a degenerate context matrix (gen_shape)"""
+        shape, forced = gen_shape(rng, case, degenerate)
+        op = ["act", rng.randrange(1 << 30), forced if forced is not None else seed_mask]
+        return op + [shape] if shape else op
     ops = []
     n_ops = rng.randint(8, 24) if tier == "quick" else rng.randint(10, 48)
     long_history = rng.random() < 0.3          # few re-initialisations: up to 30 updates of one matrix
@@ -650,7 +734,7 @@ def gen_case(rng: random.Random, tier: str, grow: bool = False):
                 name = "lamb" if rng.random() < 0.7 else "gamma"
                 ops.append(["setattr", name, rng.choice([0.25, 0.5, 1.0, 2.0, 3.0, 0.7])])
                 if rng.random() < 0.6:
-                    ops.append(["act", rng.randrange(1 << 30), None])
+                    ops.append(act())
                     acts += 1
                 ops.append(rng.choice([["init"], ["mutate", "none", rng.randrange(1 << 30)],
                                        ["mutate", "arch", rng.randrange(1 << 30)], ["learn", rng.randrange(1 << 30)]]))
@@ -662,7 +746,7 @@ def gen_case(rng: random.Random, tier: str, grow: bool = False):
                 ops.append(["test", rng.randrange(1 << 30), rng.randint(1, 3)])
             else:
                 ops.append(["mode", rng.random() < 0.5])
-            ops.append(["act", rng.randrange(1 << 30), None])
+            ops.append(act())
             acts += 1
             continue
         r = rng.random()
@@ -672,13 +756,15 @@ def gen_case(rng: random.Random, tier: str, grow: bool = False):
                 mask = [rng.randint(0, 1) for _ in range(case["arms"])]
                 if not any(mask):
                     mask[rng.randrange(case["arms"])] = 1
-            ops.append(["act", rng.randrange(1 << 30), mask])
+            ops.append(act(mask))
             acts += 1
         elif r < p_learn:
             ops.append(["learn", rng.randrange(1 << 30)])
             if rng.random() < 0.5 and acts < 30:      # the decision right after a learn step, forced onto one arm
                 k = 0 if rng.random() < 0.5 else rng.randrange(case["arms"])
-                ops.append(["act", rng.randrange(1 << 30), [1 if j == k else 0 for j in range(case["arms"])]])
+                fo = act()
+                fo[2] = [1 if j == k else 0 for j in range(case["arms"])]      # whatever the context looks like
+                ops.append(fo)
                 acts += 1
         elif r < p_mut:
             kind = "arch" if (grow or rng.random() < 0.45) else rng.choice(MUT_KINDS)
@@ -689,7 +775,7 @@ def gen_case(rng: random.Random, tier: str, grow: bool = False):
                 clones += 1
                 ops.append(["clone"])
                 for _ in range(rng.randint(2, 4)):
-                    ops.append(["act", rng.randrange(1 << 30), None])
+                    ops.append(act())
                     ops.append(["switch", rng.randrange(8)])
                     acts += 1
             else:
@@ -699,7 +785,7 @@ def gen_case(rng: random.Random, tier: str, grow: bool = False):
         else:
             ops.append(["reload", rng.choice(["load", "ckpt_self", "ckpt_fresh"])])
     if grow:
-        ops = ops[:10] + [["act", rng.randrange(1 << 30), None]]
+        ops = ops[:10] + [act()]
     case["ops"] = ops
     return case
 
@@ -773,12 +859,46 @@ def crafted_cases():
                ["mode", True], ["act", 10, None], ["mode", False], ["act", 11, None], ["mutate", "none", 12],
                ["act", 13, None], ["test", 14, 2], ["act", 15, None]]
         out.append(dict(base, algo=algo, lamb=1.5, ctx_kind=["block", "dense"][i], ctx_dim=2, seed=740 + i, ops=ops))
+        out += degenerate_cases(algo, i)
+    return out
+
+
+def degenerate_cases(algo, i):
+    """degenerate but legal context matrices: an arm whose row is exactly zero (a padding arm) - chosen because the
+    mask leaves only it, or free to be chosen -, all rows zero, two arms with the same row, unit-vector rows,
+    tiny / huge magnitudes; before and after learn / architecture mutation / clone / reload; and a single arm.
+    The feature of the arm that get_action returns is d f / d(output layer) = (h(x), 1) * act'(z), never zero."""
+    out = []
+    one = lambda k, n=3: [1 if j == k else 0 for j in range(n)]      # noqa: E731
+    Z = lambda *a: {"zero": list(a)}                                  # noqa: E731
+    for v, (kind, ln, out_act, lamb) in enumerate([("dense", True, None, 2.0), ("block", False, "Tanh", 0.5)]):
+        ops = [["act", 1, None], ["act", 2, one(1), Z(1)], ["act", 3, None, Z(0)], ["act", 4, None, {"dup": [0, 2]}],
+               ["act", 5, one(1), {"dup": [0, 1]}], ["act", 6, None, {"onehot": 1}],
+               ["act", 7, one(2), {"onehot": 1, "zero": [2]}], ["act", 8, None, {"scale": -24}],
+               ["act", 9, one(0), {"scale": -24, "zero": [0]}], ["act", 10, None, {"scale": 8}],
+               ["act", 11, None, {"scale": 8, "dup": [1, 2], "zero": [0]}], ["act", 12, None, Z(0, 1, 2)],
+               ["learn", 13], ["act", 14, one(0), Z(0)], ["act", 15, [1, 1, 0], Z(0, 1)],
+               ["mutate", "arch", 16 + v], ["act", 17, one(1), Z(1)], ["clone"], ["act", 18, one(0), Z(0)],
+               ["switch", 0], ["act", 19, None, Z(2)], ["act", 20, one(2), Z(2)], ["reload", "load"],
+               ["act", 21, one(2), Z(2)], ["act", 22, None]]
+        c = dict(algo=algo, lamb=lamb, gamma=[1.0, 2.0][v], ctx_dim=3, arms=3, ctx_kind=kind, head=[5], layer_norm=ln,
+                 activation=["ReLU", "Tanh"][v], seed=780 + 2 * i + v, box=256.0, ops=ops)
+        if out_act:
+            c["out_act"] = out_act
+        out.append(c)
+    # a single arm (Discrete(1)): nothing to choose, the matrix still absorbs every decision
+    ops = [["act", 1, None], ["act", 2, [1]], ["act", 3, None, Z(0)], ["act", 4, [1], Z(0)], ["act", 5, None, {"onehot": 1}],
+           ["act", 6, None, {"scale": -12}], ["act", 7, None, {"scale": 6}], ["learn", 8], ["act", 9, [1], Z(0)],
+           ["mutate", "arch", 10], ["act", 11, None], ["clone"], ["act", 12, None, Z(0)], ["switch", 0], ["act", 13, None],
+           ["reload", "ckpt_fresh"], ["act", 14, None, Z(0)], ["test", 15, 2], ["act", 16, None]]
+    out.append(dict(algo=algo, lamb=[0.5, 2.0][i], gamma=1.0, ctx_dim=3, arms=1, ctx_kind=["dense", "block"][i], head=[4],
+                    layer_norm=True, activation="ReLU", seed=790 + i, box=64.0, ops=ops))
     return out
 
 
 def key_of(case):
     return [case[k] for k in ("algo", "lamb", "gamma", "ctx_dim", "arms", "ctx_kind", "head", "seed")] + \
-        [case.get(k) for k in ("out_act", "latent", "enc", "hp", "accel")] + [case["ops"]]
+        [case.get(k) for k in ("out_act", "latent", "enc", "hp", "accel", "box")] + [case["ops"]]
 
 
 # ----------------------------------------------------------------------------- check
@@ -856,8 +976,10 @@ def run(chk: Check) -> None:
                 "whose hp_config lists them, explicit init_params, agent.test(env) on a BanditEnv, set_training_mode, "
                 "decisions in both modes; network sweep: head output activation none/Sigmoid/Tanh/Softsign/ELU, layer_norm, "
                 "latent 2-8, encoder and head widths; (act with/without mask | learn | Mutations.mutation of each of the five kinds | "
-                "clone with parent and copies kept alive and deciding alternately | save+load three ways) on real NeuralUCB/NeuralTS agents: context dim 2-4, 2-4 arms, "
-                "BanditEnv-style block contexts or dense ones, lamb in {1,.5,2,.25,4,1.5,.1,3.7}, output layer "
+                "clone with parent and copies kept alive and deciding alternately | save+load three ways) on real NeuralUCB/NeuralTS agents: context dim 2-4, 1-4 arms, "
+                "BanditEnv-style block contexts or dense ones; 30 % of the decisions on a degenerate context matrix (rows exactly zero with the mask "
+                "forcing that arm, all rows zero, duplicate rows, unit-vector rows, magnitudes 2^-24..2^8, combinations), 12 % of the agents "
+                "with a single arm; lamb in {1,.5,2,.25,4,1.5,.1,3.7}, output layer "
                 "3-12 parameters (grow cases: 9 -> 25); distinct = distinct (configuration, op list); "
                 "non-trivial = at least two Sherman-Morrison updates and one learn/mutate/clone/reload in between")
     chk.assumptions = [
@@ -917,6 +1039,10 @@ def faulty_get_action(mode: str):
         mu = self.actor(obs)
         g = torch.zeros((self.action_dim, self.numel)).to(self.device)
         for k, fx in enumerate(mu):
+            if mode == "zero-row" and not torch.any(obs[k]):
+                continue                 # fault: "a padding arm has no features" - they are (h(0), 1), not 0
+            if mode == "near-zero-row" and float(obs[k].abs().max()) < 1e-5:
+                continue                 # fault: the same with a threshold
             self.optimizer.zero_grad()
             fx.backward(retain_graph=True)
             g[k] = torch.cat([w.grad.detach().flatten() / np.sqrt(self.exp_layer.weight.size(0))
@@ -934,6 +1060,10 @@ def faulty_get_action(mode: str):
             self.sigma_inv += num / (1 + v.T @ self.sigma_inv @ v)
         elif mode == "denominator":
             self.sigma_inv -= num / (v.T @ self.sigma_inv @ v)
+        elif mode in ("zero-row", "near-zero-row") or (mode == "single-arm-skip" and self.action_dim > 1):
+            self.sigma_inv -= num / (1 + v.T @ self.sigma_inv @ v)
+        elif mode == "single-arm-skip":
+            pass                         # fault: "nothing to choose, nothing to record"
         else:
             raise InfraError(mode)
         return action
@@ -941,7 +1071,8 @@ def faulty_get_action(mode: str):
 
 
 def selftest(chk: Check) -> None:
-    """the suite must notice: update with the wrong sign; denominator without the 1 +; a clone whose
+    """the suite must notice: update with the wrong sign; denominator without the 1 +; a zero feature for an arm
+    whose context row is exactly / nearly zero; no update when there is a single arm; a clone whose
     sigma_inv aliases the parent's; sigma_inv not re-created after an architecture mutation that
     resized the output layer"""
     import agents
@@ -964,6 +1095,26 @@ def selftest(chk: Check) -> None:
                 raise InfraError(f"C19 self-test: seeded fault '{mode}' in {algo}.get_action not noticed "
                                  f"(oracle: {bool(tr.problems)}, correspondence: {bool(diffs)})")
             chk.notes.append(f"self-test: {algo} update fault '{mode}' detected by oracle and correspondence")
+        # degenerate contexts: padding arms (rows exactly / nearly zero) chosen, a single arm
+        dcases = degenerate_cases(algo, 0)
+        for mode, which in (("zero-row", dcases[:2]), ("near-zero-row", dcases[:2]), ("single-arm-skip", dcases[2:])):
+            for dc in which:
+                tr, diffs = one_case(chk, dc)
+                if tr.problems or diffs:
+                    raise InfraError(f"C19 self-test: the unpatched {algo} already fails on degenerate contexts: "
+                                     f"{(tr.problems or diffs)[0]}")
+                orig = cls.get_action
+                cls.get_action = faulty_get_action(mode)
+                try:
+                    tr, diffs = one_case(chk, dc)
+                finally:
+                    cls.get_action = orig
+                if not tr.problems or not diffs:
+                    raise InfraError(f"C19 self-test: seeded fault '{mode}' in {algo}.get_action not noticed on "
+                                     f"{dc['ctx_kind']} contexts with {dc['arms']} arm(s) "
+                                     f"(oracle: {bool(tr.problems)}, correspondence: {bool(diffs)})")
+            chk.notes.append(f"self-test: {algo} feature fault '{mode}' on degenerate contexts detected by oracle and "
+                             f"correspondence")
         # clone whose matrix is a view of the parent's: decisions of one leak into the other
         orig_clone = cls.clone
 
